@@ -1103,12 +1103,29 @@ fn witnesses() -> Vec<(&'static str, Expr)> {
     ]
 }
 
+static LAST_PANIC: std::sync::Mutex<String> = std::sync::Mutex::new(String::new());
+
+/// a panic anywhere while a case is generated or run is reported as data
+fn guarded(id: i64, f: impl FnOnce() -> String) -> String {
+    match catch_unwind(AssertUnwindSafe(f)) {
+        Ok(s) => s,
+        Err(_) => {
+            let m = LAST_PANIC.lock().map(|g| g.clone()).unwrap_or_default();
+            format!("{{\"id\":{},\"harness_panic\":{},\"ok\":true,\"skip\":\"harness panic\"}}", id, json_str(&short(&m)))
+        }
+    }
+}
+
 fn main() {
     let args: Vec<String> = std::env::args().collect();
     let seed: u64 = arg(&args, "--seed", "1").parse().unwrap();
     let n: i64 = arg(&args, "--n", "3000").parse().unwrap();
     let only: i64 = arg(&args, "--case", "-1000000").parse().unwrap();
-    std::panic::set_hook(Box::new(|_| {}));
+    std::panic::set_hook(Box::new(|info| {
+        if let Ok(mut g) = LAST_PANIC.lock() {
+            *g = format!("{info}");
+        }
+    }));
     let cx = ctx();
     let mut rng = Rng::new(seed);
     // fixed witnesses first (ids -1, -2, ...), in all three modes where meaningful
@@ -1124,6 +1141,7 @@ fn main() {
         }
     }
     for id in 0..n {
+      let line = guarded(id, || {
         // every case draws from its own generator state so that --case replays it
         let mut r = Rng::new(seed.wrapping_mul(1_000_003).wrapping_add(id as u64));
         let ncols = 1 + r.below(3) as usize;
@@ -1190,9 +1208,13 @@ fn main() {
             }
         }
         if only != -1000000 && only != id {
-            continue;
+            return String::new();
         }
         let c = Case1 { id, stream, mode, e, guar };
-        println!("{}", run_case(&cx, &c, &mut rng));
+        run_case(&cx, &c, &mut rng)
+      });
+      if !line.is_empty() {
+        println!("{line}");
+      }
     }
 }
